@@ -36,8 +36,12 @@ class CreateUE(Stream):
             style = rng.choice(["zeros", "near_full", "carry", "random", "random"])
             count = rng.choice([1, 2, 3, 10, 37])
             start = rng.choice([0, 0, 1, 7, 9990, 9999, rng.below(10000)])
+            def key(j):
+                # legal but unusual key material: all zero, all one, leading / trailing zeros
+                special = ["00" * 16, "ff" * 16, "00" * 15 + "01", "80" + "00" * 15, "00" * 8 + rng.bytes(8).hex()]
+                return special[(i + j) % len(special)] if i % 3 == j else rng.bytes(16).hex()
             cases.append({"imsi": imsi(mnclen, msinlen, style), "start": start, "count": count,
-                          "k": rng.bytes(16).hex(), "opc": rng.bytes(16).hex() if rng.chance(1, 2) else "", "op": rng.bytes(16).hex(), "kind": style})
+                          "k": key(0), "opc": key(1) if (i % 3 == 1 or rng.chance(1, 2)) else "", "op": key(2), "kind": style})
         for i in range(big):
             # whole population through the implementation: pairwise distinctness is checked on the Go output
             # directly; the model is compared on 40 windows of 3 indices spread over the population
